@@ -245,6 +245,8 @@ theorem admt_coefficients_match_jet_partial {β : Type} [Field β]
       + (coeffs an R px py pxx pxy pyy dparx dpary dperpx dperpy).cyy * fyy =
       specDiv px py pxx pxy pyy ⟨1 / an, dperpx, dperpy⟩ ⟨1, dparx, dpary⟩ R 0 fy fxx fxy fyy := by
   have hN' : px ^ 2 + py ^ 2 ≠ 0 := by rwa [pow_two, pow_two]
+  have hN'' : py ^ 2 + px ^ 2 ≠ 0 := by rwa [add_comm]
+  have hN''' : py * py + px * px ≠ 0 := by rwa [add_comm]
   simp only [coeffs, specDiv, Cherab.Admt.sq, Jet.mul_def, Jet.add_def, Jet.sub_def, Jet.div_def, Jet.const]
   push_cast
   field_simp
@@ -263,6 +265,8 @@ theorem admt_coefficients_jet_verdict :
   | (show CoefficientsMatchJet
      intro β _ _ an R px py pxx pxy pyy dparx dpary dperpx dperpy fx fy fxx fxy fyy ha hR hN
      have hN' : px ^ 2 + py ^ 2 ≠ 0 := by rwa [pow_two, pow_two]
+     have hN'' : py ^ 2 + px ^ 2 ≠ 0 := by rwa [add_comm]
+     have hN''' : py * py + px * px ≠ 0 := by rwa [add_comm]
      simp only [coeffs, specDiv, Cherab.Admt.sq, Jet.mul_def, Jet.add_def, Jet.sub_def, Jet.div_def, Jet.const]
      push_cast
      field_simp
@@ -276,6 +280,8 @@ theorem admt_coefficients_jet_verdict :
 theorem admt_isotropic_of_match (h : CoefficientsMatchJet) : IsotropicIsLaplacian := by
   intro β _ _ R px py pxx pxy pyy hR hN
   have hN' : px ^ 2 + py ^ 2 ≠ 0 := by rwa [pow_two, pow_two]
+  have hN'' : py ^ 2 + px ^ 2 ≠ 0 := by rwa [add_comm]
+  have hN''' : py * py + px * px ≠ 0 := by rwa [add_comm]
   have e := fun fx fy fxx fxy fyy => h β 1 R px py pxx pxy pyy 0 0 0 0 fx fy fxx fxy fyy one_ne_zero hR hN
   have e1 := e 1 0 0 0 0
   have e2 := e 0 1 0 0 0
@@ -302,6 +308,8 @@ theorem admt_isotropic_laplacian_verdict :
   | (show IsotropicIsLaplacian
      intro β _ _ R px py pxx pxy pyy hR hN
      have hN' : px ^ 2 + py ^ 2 ≠ 0 := by rwa [pow_two, pow_two]
+     have hN'' : py ^ 2 + px ^ 2 ≠ 0 := by rwa [add_comm]
+     have hN''' : py * py + px * px ≠ 0 := by rwa [add_comm]
      simp only [coeffs, Cherab.Admt.sq]
      push_cast
      refine ⟨?_, ?_, ?_, ?_, ?_⟩ <;> field_simp <;> ring)
@@ -316,9 +324,11 @@ theorem admt_denominators_nonzero {β : Type} [Field β]
     (an R px py pxx pxy pyy dparx dpary dperpx dperpy : β) (ha : an ≠ 0) (hR : R ≠ 0)
     (hN : px * px + py * py ≠ 0) :
     ∀ d ∈ denominators an R px py pxx pxy pyy dparx dpary dperpx dperpy, d ≠ 0 := by
-  intro d hd
-  simp only [denominators, Cherab.Admt.sq, List.mem_cons, List.not_mem_nil, or_false] at hd
-  rcases hd with h | h | h | h | h | h | h | h | h | h <;> rw [h] <;> assumption
+  have hN''' : py * py + px * px ≠ 0 := by rwa [add_comm]
+  simp only [denominators, Cherab.Admt.sq, List.forall_mem_cons, List.not_mem_nil, false_imp_iff, implies_true,
+    and_true]
+  repeat' constructor
+  all_goals assumption
 
 /-! ### `calculate_admt` on the generated operators of a full grid -/
 
